@@ -74,7 +74,13 @@ def c03():
     return [symtab.SymbolTable()]
 
 
+def c02():
+    from harness import rewrites
+    return [rewrites.OutputOptimize(), rewrites.BriefChain()]
+
+
 REGISTRY = {
+    'C02': dict(harnesses=c02, run=_runner('C02', c02)),
     'C03': dict(harnesses=c03, run=_runner('C03', c03)),
     'C01': dict(harnesses=c01, run=_runner('C01', c01)),
     'C18': dict(harnesses=c18, run=_runner('C18', c18)),
